@@ -74,6 +74,10 @@ func vhBuildArray(storage SlabStorage, addr Address, counts []int) (*Array, []ui
 }
 
 func vhTic(a, b TypeInfo) bool {
+	if x, ok := a.(vCompositeTypeInfo); ok {
+		y, ok2 := b.(vCompositeTypeInfo)
+		return ok2 && x.id == y.id
+	}
 	x, ok1 := a.(vTypeInfo)
 	y, ok2 := b.(vTypeInfo)
 	return ok1 && ok2 && x.id == y.id
